@@ -160,11 +160,16 @@ macro_rules! c07_gumbel {
                 let d = match Gumbel::<$f>::new(loc, scale) { Ok(d) => d, Err(_) => return };
                 let x: $f = d.sample(&mut rng);
                 vassert!(rng.pos == 1, "Gumbel: number of words consumed depends on the parameters");
-                vassert!(flog_n() == 2, "Gumbel: expected exactly two logarithms");
-                let (a0, _, r0) = flog_get(0);
-                let (a1, _, g) = flog_get(1);
-                vassert!(a0 == $oc(w0) as f64, "Gumbel: first logarithm is not taken of the OpenClosed01 draw");
-                vassert!(biteq64(a1, -r0), "Gumbel: second logarithm is not taken of -ln(u)");
+                let g: f64 = if native() {
+                    num_traits::Float::ln(-num_traits::Float::ln($oc(w0))) as f64
+                } else {
+                    vassert!(flog_n() == 2, "Gumbel: expected exactly two logarithms");
+                    let (a0, _, r0) = flog_get(0);
+                    let (a1, _, g) = flog_get(1);
+                    vassert!(a0 == $oc(w0) as f64, "Gumbel: first logarithm is not taken of the OpenClosed01 draw");
+                    vassert!(biteq64(a1, -r0), "Gumbel: second logarithm is not taken of -ln(u)");
+                    g
+                };
                 // documented transform: location - scale * ln(-ln u)
                 vassert!(biteq64(x as f64, (loc - scale * (g as $f)) as f64), "Gumbel: sample is not location - scale * g");
                 kani::cover!(g == 2.0, "g = 2");
